@@ -87,8 +87,15 @@ func (*Deb) ConventionalFileName(info *nfpm.Info) string {
 		version += "-" + info.Release
 	}
 
+	// the control file puts a platform other than linux in front of the
+	// architecture; dpkg-name names a package after that field
+	arch := info.Arch
+	if info.Platform != "" && info.Platform != "linux" {
+		arch = info.Platform + "-" + arch
+	}
+
 	// package_version_architecture.package-type
-	return fmt.Sprintf("%s_%s_%s.deb", info.Name, version, info.Arch)
+	return fmt.Sprintf("%s_%s_%s.deb", info.Name, version, arch)
 }
 
 // ConventionalExtension returns the file name conventionally used for Deb packages
